@@ -387,6 +387,10 @@ class ByteInterval(Node):
 
     @section.setter
     def section(self, value: typing.Optional["Section"]) -> None:
+        if value is self._section:
+            # Already there: nothing to do (taking it out and putting it
+            # back would disturb anyone iterating over the collection).
+            return
         if self._section is not None:
             self._section.byte_intervals.discard(self)
         if value is not None:
